@@ -339,3 +339,68 @@ def run(ctx):
                         "highly compressible input is emitted compressed and then rejected by the reader")
         else:
             ctx.ok(R_lim, {"fn": who, "calls_validator": True})
+
+    # sparse decoder: nothing is appended beyond the stored length — every growth of the output is clamped to what is still owed
+    R_spd = ctx.rule("C03.sparse-decoder-appends-clamped", "in the sparse decoder every resize / extend of the output uses an amount that passed through `.min(remaining)`", floor=2)
+    if sp_d is not None:
+        du = mirg.DefUse(sp_d)
+        ctx.saw_fn(sp_d)
+        n_g = 0
+        for bb, t in mirg.iter_calls(sp_d):
+            cn = ncallee(t) or ""
+            if not re.search(r"Vec(::<[^>]*>)?::(resize|extend_from_slice|extend|push)$", cn) or len(t["a"]) < 2:
+                continue
+            n_g += 1
+            l = mirg.op_local(t["a"][1])
+            calls_ = du.slice_back(l, depth=10)[1] if l is not None else []
+            clamped = any(re.search(r"::min$|::clamp$", ncallee(c_) or "") for c_ in calls_)
+            inst = {"growth": cn.split("::")[-1], "line": t["ln"]}
+            if clamped:
+                ctx.ok(R_spd, inst)
+            else:
+                ctx.bad(R_spd, "sparse-decoder|%s|unclamped" % cn.split("::")[-1], "%s:%d" % (sp_d.file, t["ln"]), "`%s` grows the output by an amount that never passes through min(remaining)" % cn.split("::")[-1],
+                        "the encoder ends some streams with a full-length zero-run marker and relies on the decoder cutting it at the stored length: the decoder returns more bytes than were compressed (the public API then rejects the codec's own output)")
+        if n_g == 0:
+            ctx.bad(R_spd, "sparse-decoder|no-growth", sp_d.where, "no output growth recognised", "shape changed")
+
+    # ADPCM decoder: the channel advances once per *sample*; a marker byte that carries no sample gives its slot back
+    R_adp = ctx.rule("C03.adpcm-channel-advances-once-per-sample", "in the ADPCM decode loop every arm of the per-byte decision either emits a sample or restores the channel index it was handed", floor=3)
+    ad = fns.get(C + "algorithms::adpcm::decompress_internal")
+    if ad is None:
+        ctx.bad(R_adp, "adpcm|missing", "-", "decompress_internal not found", "anchor gone")
+    else:
+        ctx.saw_fn(ad)
+        n_arms = 0
+        for lp in [x for x in hirq.walk(ad.hir["body"]) if x.get("k") == "block" and x.get("stmts")]:
+            body_ = lp
+            stmts = lp["stmts"]
+            adv = [st for st in stmts if st.get("k") in ("assign", "assignop") and hirq.render(hirq.strip(st["l"])) == "channel_index"]
+            if not adv or not any(st.get("k") == "if" and "encoded_sample" in hirq.render(st["c"]) for st in stmts + ([lp["e"]] if lp.get("e") else [])):
+                continue
+            chain = next((st for st in stmts + ([hirq.strip(body_).get("e")] if hirq.strip(body_).get("e") else []) if st and st.get("k") == "if" and "encoded_sample" in hirq.render(st["c"])), None)
+            arms = []
+            n = chain
+            while n is not None and n.get("k") == "if":
+                arms.append((hirq.render(n["c"])[:40], n["then"]))
+                e = n.get("else")
+                e = hirq.strip(e) if e is not None else None
+                if e is not None and e.get("k") == "block" and not e.get("stmts") and e.get("e") is not None and hirq.strip(e["e"]).get("k") == "if":
+                    e = hirq.strip(e["e"])
+                if e is not None and e.get("k") == "if":
+                    n = e
+                else:
+                    if e is not None:
+                        arms.append(("else", e))
+                    n = None
+            for label, arm in arms:
+                n_arms += 1
+                emits = any((c.get("fn") or "").endswith("write_sample") or (c.get("k") == "mcall" and c["m"] in ("push", "extend_from_slice") and "output" in hirq.render(c["recv"])) for c in hirq.calls(arm)) or \
+                    any(c.get("k") == "mcall" and c["m"] in ("push", "extend_from_slice") and "output" in hirq.render(c["recv"]) for c in hirq.walk(arm))
+                restores = any(x.get("k") in ("assign", "assignop") and hirq.render(hirq.strip(x["l"])) == "channel_index" for x in hirq.walk(arm))
+                if emits != restores:
+                    ctx.ok(R_adp, {"arm": label, "emits_sample": emits, "restores_channel": restores})
+                else:
+                    ctx.bad(R_adp, "adpcm|arm|%s" % re.sub(r"\W+", "_", label), "%s:%d" % (ad.file, arm.get("ln") or lp.get("ln") or ad.lo), "arm `%s`: emits a sample = %s, restores the channel index = %s" % (label, emits, restores),
+                            "a marker that carries no sample consumes a channel slot (or a sample does not): from there on the two channels' predictor states are swapped — stereo data does not decode to what was encoded")
+        if n_arms == 0:
+            ctx.bad(R_adp, "adpcm|shape", ad.where, "decode loop / per-byte decision not recognised", "shape changed")
